@@ -245,6 +245,7 @@ func runC13(cx *ctx) {
 			return srCase("sr-src-fault", key, ct, true, randPieces(rr2), false, randSizes(rr2), pt, ct, "source fails at the EOF probe")
 		})
 	}
+	c13Extra(cx)
 }
 
 func canonConsulted(s string) string {
